@@ -2,8 +2,9 @@
 C05 helper lemmas, part 9 (fragmented messages end to end, closed system), B: the link invariant.
 
 A sender `a` transmits to its neighbour `b` (pipe `p` of `b`, address `A`); the rest of the network is
-idle and deaf to `A`.  `FragSt … s0 s role pend last q` relates the state `s` somewhere inside the
-transmission to the state `s0` it started from:
+idle and deaf to `A` (no third radio listens to a unicast packet for `A`; other traffic it may hear).
+`FragSt … s0 s role pend last q` relates the state `s` somewhere inside the transmission to the state `s0`
+it started from:
 
 * `a` runs (`cur = a`, call stack `[a]`), its radio object / radio are a node radio in `role`
   (`(true, true, 0x3E)` = listening as `_begin` left it, `(false, ce, 0x3F)` = transmit role towards `A`),
@@ -24,7 +25,7 @@ namespace Nrf.Net
 open Nrf Nrf.Spec Nrf.Proofs
 
 /-- the static situation of a transmission from node `a` to its neighbour `b` on pipe `p` / address `A` -/
-structure FragEnv (Pb : List Bytes) (A : Bytes) (p a b : Nat) (s0 : NetState) : Prop where
+structure FragEnv (L : LinkCfg) (Pb : List Bytes) (A : Bytes) (p a b : Nat) (s0 : NetState) : Prop where
   ha : a < s0.nodes.length
   hb : b < s0.nodes.length
   hab : a ≠ b
@@ -32,7 +33,9 @@ structure FragEnv (Pb : List Bytes) (A : Bytes) (p a b : Nat) (s0 : NetState) : 
   wa : s0.ridAt a < s0.w.radios.length
   wb : s0.ridAt b < s0.w.radios.length
   quiet : ∀ i, i < s0.nodes.length → i ≠ b → (s0.radioAt i).rxFifo = []
-  deaf : ∀ r k, r ≠ s0.ridAt a → r ≠ s0.ridAt b → (s0.w.radio r).listensTo k = none
+  /-- no third radio listens to a unicast packet for the address `A` (other traffic they may well hear) -/
+  deaf : ∀ r buf pid, r ≠ s0.ridAt a → r ≠ s0.ridAt b →
+    (s0.w.radio r).listensTo (unicastPacket L A buf pid) = none
   pA : Pb[p]? = some A
   p1 : 1 ≤ p
   p5 : p ≤ 5
@@ -70,7 +73,7 @@ variable {L : LinkCfg} {Pa Pb : List Bytes} {A : Bytes} {p a b : Nat} {s0 s : Ne
 theorem FragSt.node_a (h : FragSt L Pa Pb A p a b s0 s role pend last q) : s.node = s.nodeAt a := by
   rw [node_eq_nodeAt, h.cur]
 
-theorem FragSt.hcur (E : FragEnv Pb A p a b s0) (h : FragSt L Pa Pb A p a b s0 s role pend last q) :
+theorem FragSt.hcur (E : FragEnv L Pb A p a b s0) (h : FragSt L Pa Pb A p a b s0 s role pend last q) :
     s.cur < s.nodes.length := by rw [h.cur, h.len]; exact E.ha
 
 theorem FragSt.drv_radio (h : FragSt L Pa Pb A p a b s0 s role pend last q) : s.drv.radio = s.radioAt a := by
@@ -81,21 +84,21 @@ theorem FragSt.drv_rid (h : FragSt L Pa Pb A p a b s0 s role pend last q) : s.dr
   show s.node.rf.rid = _
   rw [h.node_a, ← h.rid a]; rfl
 
-theorem FragSt.wf (E : FragEnv Pb A p a b s0) (h : FragSt L Pa Pb A p a b s0 s role pend last q) : s.drv.Wf := by
+theorem FragSt.wf (E : FragEnv L Pb A p a b s0) (h : FragSt L Pa Pb A p a b s0 s role pend last q) : s.drv.Wf := by
   unfold DrvState.Wf
   rw [h.drv_rid]
   show _ < s.w.radios.length
   rw [h.rlen]; exact E.wa
 
 /-- a third node's radio is as at the start: idle -/
-theorem FragSt.third_fifo (E : FragEnv Pb A p a b s0) (h : FragSt L Pa Pb A p a b s0 s role pend last q)
+theorem FragSt.third_fifo (E : FragEnv L Pb A p a b s0) (h : FragSt L Pa Pb A p a b s0 s role pend last q)
     (i : Nat) (hi : i < s0.nodes.length) (hia : i ≠ a) (hib : i ≠ b) : (s.radioAt i).rxFifo = [] := by
   unfold NetState.radioAt
   rw [h.rid i, h.third _ (E.rid i a hi E.ha hia) (E.rid i b hi E.hb hib)]
   exact E.quiet i hi hib
 
 /-- with nothing pending at `b` the network is quiet -/
-theorem FragSt.quiet (E : FragEnv Pb A p a b s0) (h : FragSt L Pa Pb A p a b s0 s role none last q) : Quiet s := by
+theorem FragSt.quiet (E : FragEnv L Pb A p a b s0) (h : FragSt L Pa Pb A p a b s0 s role none last q) : Quiet s := by
   intro i hi hic _
   rw [h.len] at hi; rw [h.cur] at hic
   by_cases hib : i = b
@@ -104,7 +107,7 @@ theorem FragSt.quiet (E : FragEnv Pb A p a b s0) (h : FragSt L Pa Pb A p a b s0 
 
 /-- an RF24 call of the sender, in raw form: its own radio object / radio in the new role, the receiver's
     radio (still a listening node radio) with the new RX FIFO and reception history, third radios untouched -/
-theorem FragSt.afterRf_gen (E : FragEnv Pb A p a b s0) (h : FragSt L Pa Pb A p a b s0 s role pend last q)
+theorem FragSt.afterRf_gen (E : FragEnv L Pb A p a b s0) (h : FragSt L Pa Pb A p a b s0 s role pend last q)
     (D : DrvState) (role' : Role) (pend' last' : Option Bytes)
     (hridD : D.d.rid = s.drv.d.rid) (hlen : D.w.radios.length = s.w.radios.length) (hf : D.w.faults = [])
     (N : NodeRadio L Pa role'.1 role'.2.1 role'.2.2 D.d D.radio) (x : D.radio.rxFifo = s.drv.radio.rxFifo)
@@ -148,7 +151,7 @@ theorem FragSt.afterRf_gen (E : FragEnv Pb A p a b s0) (h : FragSt L Pa Pb A p a
     rw [queue_afterRf]; exact h.queues j hj
 
 /-- **An RF24 call of the sender that touches only its own radio keeps the invariant** (with the new role) -/
-theorem FragSt.afterRf (E : FragEnv Pb A p a b s0) (h : FragSt L Pa Pb A p a b s0 s role pend last q)
+theorem FragSt.afterRf (E : FragEnv L Pb A p a b s0) (h : FragSt L Pa Pb A p a b s0 s role pend last q)
     (D : DrvState) (role' : Role) (F : DrvFrame s.drv D)
     (N : NodeRadio L Pa role'.1 role'.2.1 role'.2.2 D.d D.radio) (x : D.radio.rxFifo = s.drv.radio.rxFifo)
     (T : role'.1 = false → D.radio.txAddr = A ∧ D.radio.rxAddr0 = A) :
@@ -163,7 +166,7 @@ theorem FragSt.afterRf (E : FragEnv Pb A p a b s0) (h : FragSt L Pa Pb A p a b s
   exact F.others r (by rw [h.drv_rid]; exact hra)
 
 /-- a change of the sender's object that keeps its radio object and its queue keeps the invariant -/
-theorem FragSt.setNode (E : FragEnv Pb A p a b s0) (h : FragSt L Pa Pb A p a b s0 s role pend last q)
+theorem FragSt.setNode (E : FragEnv L Pb A p a b s0) (h : FragSt L Pa Pb A p a b s0 s role pend last q)
     (g : Node → Node) (hg : ∀ n, (g n).rf = n.rf ∧ (g n).queue = n.queue) :
     FragSt L Pa Pb A p a b s0 (s.setNode g) role pend last q := by
   have hat : ∀ i, i ≠ a → (s.setNode g).nodeAt i = s.nodeAt i := by
@@ -194,7 +197,7 @@ theorem FragSt.setNode (E : FragEnv Pb A p a b s0) (h : FragSt L Pa Pb A p a b s
 /-- **One acknowledged `send`**: the sender in the transmit role towards `A`, nothing pending at `b`, the
     payload not a repetition of the last one `b` accepted — `send()` returns `True`, `b`'s RX FIFO holds
     exactly the payload (on pipe `p`), which is now the last packet `b` accepted; CE stays high. -/
-theorem FragSt.send (hc : L3Contracts) (E : FragEnv Pb A p a b s0) {ce : Bool}
+theorem FragSt.send (hc : L3Contracts) (E : FragEnv L Pb A p a b s0) {ce : Bool}
     (h : FragSt L Pa Pb A p a b s0 s (false, ce, 0x3F) none last q) (buf : Bytes)
     (hl1 : 1 ≤ buf.length) (hl32 : buf.length ≤ 32) (hdup : last ≠ some buf) :
     ∃ s', nexec (liftRf (Rf24.send buf false false 0 true)) s = (.ok (.bool true, buf), s') ∧
@@ -237,7 +240,7 @@ theorem FragSt.send (hc : L3Contracts) (E : FragEnv Pb A p a b s0) {ce : Bool}
   intro r hra hrb'
   rw [o4 r (by rw [h.drv_rid]; exact hra), hk]
   show ((s.w.radio r).receive _).1 = _
-  rw [Radio.receive_ignore _ _ (by rw [h.third r hra hrb']; exact E.deaf r _ hra hrb')]
+  rw [Radio.receive_ignore _ _ (by rw [h.third r hra hrb']; exact E.deaf r _ _ hra hrb')]
 
 theorem nodeAt_switchTo_ne (s : NetState) (j i : Nat) (h : i ≠ s.cur) : (s.switchTo j).nodeAt i = s.nodeAt i := by
   have : (s.switchTo j).nodeAt i = (s.setNode fun n => { n with clock := s.w.clock }).nodeAt i := rfl
@@ -246,7 +249,7 @@ theorem nodeAt_switchTo_ne (s : NetState) (j i : Nat) (h : i ≠ s.cur) : (s.swi
 /-- **The receiver drains its RX FIFO at a scheduling point of the sender**: a FIRST or MORE fragment `g0`
     for `b` is pending (payload `p0`); `runOthers` lets `b` — and nobody else — run `update()`, which
     reads the payload, hands the frame to `queue.enqueue` (the reassembly cache) and finds nothing more. -/
-theorem FragSt.drain (hc : L3Contracts) (E : FragEnv Pb A p a b s0) {p0 : Bytes}
+theorem FragSt.drain (hc : L3Contracts) (E : FragEnv L Pb A p a b s0) {p0 : Bytes}
     (h : FragSt L Pa Pb A p a b s0 s role (some p0) last q) (g0 : Frame) (g : Nat)
     (hl1 : 1 ≤ p0.length) (hl32 : p0.length ≤ 32)
     (hun : ∀ f0 : Frame, f0.unpack p0 = (g0, true)) (hto : g0.header.toNode = (s0.nodeAt b).a.addr)
